@@ -146,7 +146,7 @@ impl Lock {
         let line = if bad_checksum {
             // a perfect next fragment of whatever is open, with a wrong checksum
             let (n, k, id) = match &self.m.st {
-                reasm_ref::St::Open { id, last, n, .. } => (*n, last + 1, *id),
+                reasm_ref::St::Open { id, last, n, .. } => (*n, last.saturating_add(1), *id),
                 _ => (2, 1, Some(1)),
             };
             let mut b = Build::simple(n, k, id, b"A", &uniq_payload(self.next_ctr()), 0);
